@@ -568,6 +568,24 @@ func (c *EvalCtx) evalCall(x *ast.CallExpr) Val {
 			return BoolV{fe.fresh("cb.called", "Bool")}
 		}
 		return BoolV{fe.fresh("cb.result", "Bool")}
+	case "executed":
+		// executed("callee#k"): that call of the function under verification was executed on the current path
+		// (its latest execution, for a call inside a loop); let-bound results of a call mean something only then
+		if len(args) == 1 && c.fr != nil {
+			if bl, ok := args[0].(*ast.BasicLit); ok && bl.Kind == token.STRING {
+				site, _ := strconv.Unquote(bl.Value)
+				if ci, ok := c.fr.callIdx[site]; ok {
+					if call, ok := ci.(*ssa.Call); ok {
+						if pc, ok := fe.callPC[call]; ok {
+							return BoolV{pc}
+						}
+					}
+					return BoolV{"false"}
+				}
+				return c.fail("executed: no call site %q", site)
+			}
+		}
+		return c.fail("executed(\"callee#k\")")
 	case "closure_called", "closure_result":
 		// closure_called(k) / closure_result(k): the same, for the k-th function literal of this function
 		k := 0
